@@ -179,3 +179,62 @@ def readonly_effects(repo: Repo, qualname: str, readonly_callees, owned_params=(
 
 
 EXC_NAMES = ("ValueError", "TypeError", "NotImplementedError", "AttributeError", "KeyError", "IndexError", "Exception")
+
+
+def pickler_layout(repo: Repo):
+    """A13 (C10): the instance layout and the value model of queue items that the scheduler contracts rely on.
+      - _NonrecursivePickler.__init__ binds `lazywrites` to a new list, `realwrite` to the file's write and `write` to the bound
+        lazywrite; no other method of the class assigns `write` / `realwrite`, defines `realsave` / `realmemoize` differently, or
+        calls realsave / realmemoize / realwrite except dump (and the three entry points for realwrite / realmemoize);
+      - `_LazySave(...)` / `_LazyMemo(...)` occur only as the argument of `.append(...)` (items are records: nothing compares them by
+        identity or keeps one elsewhere); the two classes define nothing but __init__ (self.obj = obj) and __repr__."""
+    out = []
+    ci = repo.classes.get("_NonrecursivePickler")
+
+    def ob(name, ok, why="", fi=None, line=0):
+        out.append((f"A13/{name}", bool(ok), why, fi, line))
+    if ci is None:
+        ob("class-present", False, "class _NonrecursivePickler is missing")
+        return out
+    init = ci.methods.get("__init__")
+    want = {"lazywrites": "[]", "realwrite": "file.write", "write": "self.lazywrite"}
+    got = {}
+    if init is not None:
+        for n in ast.walk(init.node):
+            if isinstance(n, ast.Assign) and len(n.targets) == 1 and isinstance(n.targets[0], ast.Attribute) \
+                    and isinstance(n.targets[0].value, ast.Name) and n.targets[0].value.id == "self":
+                got[n.targets[0].attr] = ast.unparse(n.value)
+    for k, v in want.items():
+        ob(f"init-binds-{k}", got.get(k) == v, f"__init__ must bind self.{k} = {v} (found {got.get(k)!r})", init, init.lineno if init else 0)
+    for mname, fi in sorted(ci.methods.items()):
+        for n in ast.walk(fi.node):
+            if isinstance(n, (ast.Assign, ast.AugAssign)):
+                tg = n.targets if isinstance(n, ast.Assign) else [n.target]
+                for t in tg:
+                    if isinstance(t, ast.Attribute) and t.attr in ("write", "realwrite", "realsave", "realmemoize", "save", "memoize") and mname != "__init__":
+                        ob(f"no-rebinding/{mname}.{t.attr}", False, f"{mname} rebinds self.{t.attr}", fi, n.lineno)
+            if isinstance(n, ast.Call) and isinstance(n.func, ast.Attribute) and n.func.attr in ("realsave", "realmemoize", "realwrite"):
+                allowed = {"realsave": ("dump",), "realmemoize": ("dump", "lazymemoize"), "realwrite": ("dump", "lazywrite")}[n.func.attr]
+                ob(f"real-calls/{mname}.{n.func.attr}@{n.lineno - fi.lineno}", mname in allowed,
+                   f"{n.func.attr} may only be called from {allowed}: a call from {mname} would run dill's recursive save outside the drain loop", fi, n.lineno)
+    for attr, val in (("realsave", "dill.Pickler.save"), ("realmemoize", "dill.Pickler.memoize"), ("memoize", "lazymemoize")):
+        node = ci.class_attrs.get(attr)
+        ob(f"alias-{attr}", node is not None and ast.unparse(node) == val, f"class attribute {attr} must be {val}")
+    mod = repo.modules.get(ci.module)
+    parents = {}
+    for node in ast.walk(mod.tree):
+        for ch in ast.iter_child_nodes(node):
+            parents[id(ch)] = node
+    k = 0
+    for node in ast.walk(mod.tree):
+        if isinstance(node, ast.Call) and isinstance(node.func, ast.Name) and node.func.id in ("_LazySave", "_LazyMemo"):
+            par = parents.get(id(node))
+            good = isinstance(par, ast.Call) and isinstance(par.func, ast.Attribute) and par.func.attr == "append" and node in par.args
+            ob(f"items-only-appended/{k}", good, f"{node.func.id}(...) at line {node.lineno} is not the argument of .append(...)", None, node.lineno)
+            k += 1
+    for cn in ("_LazySave", "_LazyMemo"):
+        c2 = repo.classes.get(cn)
+        okc = c2 is not None and set(c2.methods) <= {"__init__", "__repr__"} and not c2.getters and \
+            (c2.methods.get("__init__") is not None and ast.unparse(c2.methods["__init__"].node.body[-1]) == "self.obj = obj")
+        ob(f"record-class/{cn}", okc, f"{cn} must be a plain record (only __init__: self.obj = obj, and __repr__)")
+    return out
